@@ -381,11 +381,11 @@ def gen_file(rng, natoms=None, ninstr=None, with_qpeaks=True, restraints=True, k
     rkw = ['SADI', 'DFIX', 'DANG', 'SIMU', 'DELU', 'RIGU', 'ISOR', 'FLAT', 'SAME', 'CHIV', 'EADP', 'EXYZ', 'NCSY', 'HFIX', 'MPLA', 'RTAB', 'CONN', 'ANIS']
     for i, nm in enumerate(names):
         r = rng.random()
-        if resi and r < 0.15:
+        if resi and r < 0.2:
             num = rng.randint(1, 5)
             used = [l['cls'] for l in lines if l['kind'] == 'resi' and l['cls']]
-            cls = rng.choice(used) if used and rng.random() < 0.5 else rng.choice(['', 'TOL', 'CCF3', 'thf', 'B12', '3HB'])
-            cls = rng.choice([cls, cls, cls.lower(), cls.upper()])     # classes are not case-sensitive
+            cls = rng.choice(used) if used and rng.random() < 0.7 else rng.choice(['', 'TOL', 'CCF3', 'thf', 'B12', '3HB'])
+            cls = rng.choice([cls, cls.lower(), cls.lower(), cls.upper(), cls.capitalize()])     # classes are not case-sensitive
             toks = ['RESI'] + ([cls] if cls else []) + [str(num)]
             if cls and rng.random() < 0.4:
                 toks = ['RESI', str(num), cls]
